@@ -5,9 +5,11 @@ import re
 
 from ..core import hexs, unhex, sx_parse
 from ..runner import Stream
+from .. import parse_streams
+from ..parse_common import parse_result
 
 ID = "C04"
-AREAS = ["value"]
+AREAS = ["value", "parse"]
 RULE = ("int: for each target type u8..i64 x boundary, debug-assert-violating and random ranges x the values "
         "{min-1,min,min+1,-1,0,1,max-1,max,max+1,+-2^63(+-1),+-2^64,2^64-1,20/25-digit numbers, range bounds +-1} x the "
         "decorations {plain,+,-,+-,--,leading zeros,0x, leading/trailing blank,_ ,1_0, empty, lone sign, non-UTF-8, "
@@ -17,13 +19,19 @@ RULE = ("int: for each target type u8..i64 x boundary, debug-assert-violating an
         "ignore_case on/off, ASCII and non-ASCII names, values = declared names with case flips and foldings; "
         "store: random argument sets (typed by value_parser!(T)), raw values valid and invalid, random sequences of "
         "try_get_one/try_get_many/try_remove_one/try_remove_many/ids with right, wrong and unknown ids and types. "
+        "stored (round 2, full parser): random command trees with at least one ranged-i64 / bool / count argument "
+        "(vp/gen_cmd.py), defaults, env values and subcommands as generated, 6 mostly-valid or mutated lines each; "
+        "non-trivial = a successful parse in which a reported value was checked against such a parser.  "
         "Non-trivial: int = the candidate is a well-formed decimal (so range/width decided) or carries a decoration "
         "trap; bool = ASCII-lowercases to a literal or contains non-ASCII; possible = some declared name equals the "
         "value up to case; store = the history contains a failing access or a removal.  Distinct = distinct case text.")
 TRUSTED = [
     "Coq 8.16.1 kernel (coqc); no native_compute; theorems C04_* are 'Closed under the global context'",
     "extraction: ExtrOcamlBasic only, no Extract Constant; OCaml driver ocaml/value_driver.ml + zarith conversions",
-    "correspondence: vp/props/c04.py generators, harness/src/modes/value.rs, string comparison of canonical results",
+    "correspondence: vp/props/c04.py generators, harness/src/modes/value.rs, string comparison of canonical results; "
+    "stream `stored`: vp/gen_cmd.py, harness/src/modes/parse.rs, ocaml/parse_driver.ml (the parser model of C01-C11)",
+    "round 2 imports the parser-model proof files of C01/C02/C09/C10 (Invariant, IndexInv, Provenance, Dispatch, Chain, "
+    "Globals, KindSound, Unparse*) as lemmas; their theorems are closed under the global context",
     "translators/tables.py: regex extraction of TRUE_LITERALS/FALSE_LITERALS, the shape of str_to_bool and of the "
     "integer ValueParserFactory impls; python unicodedata for the lowercase exceptions and the case-folding table",
     "modelled not verified (std / third party): str::parse::<i64/u64> (core::num::from_str_radix, transcribed), "
@@ -32,7 +40,13 @@ TRUSTED = [
 ASSUMPTIONS = [
     "OsStr = bytes (Unix); harness built with clap features unicode (eq_ignore_case = unicase::eq) and error-context",
     "C04_typed_store assumes the store invariant wf_store (FlatMap keys distinct; an entry with a declared type holds "
-    "only values of that type), which every ArgMatches produced by the parser satisfies",
+    "only values of that type); round 2 PROVES it of the root level of every successful parse of a valid plain "
+    "definition and of every successful level of the recursion (C04_parse_store_wf, C04_level_store_wf) -- for the merged result and for levels that failed under ignore_errors it remains an assumption",
+    "the matcher model stores raw values only; 'the typed value next to a raw value' is typed_value (TypedView.v), the "
+    "C04 model of value_parser.parse_ref applied to it (push_arg_values pushes both with one add_val_to call)",
+    "whole-parse corollaries exist for the value parsers a definition of the parser model can name (String, OsString, "
+    "bool, the u8 parser of Count, RangedI64ValueParser<i64>); boolish/falsey/non-empty/possible/enum and the other "
+    "widths have their per-parser theorems and the implementation-side streams only",
     "non-ASCII case-insensitive matching is the Unicode full case folding of unicase (table from python's casefold); "
     "the oracle brackets it (must accept exact/ASCII-caseless matches, must reject what no folding equates)",
     "debug-assertion behaviour (range() asserts, verify_arg's UnknownArgument) is modelled by a flag and exercised in "
@@ -661,14 +675,143 @@ def gen_store(tier, rng, profile="debug"):
     return cases
 
 
+
+# ----------------------------------------------------------------- stream `stored` (round 2): the values a whole parse stores
+# Direct reading of the property's first sentence on the implementation's ArgMatches: at every level of a
+# successful parse, every raw value reported for an argument lies in the language of THAT argument's value
+# parser (ranged integer: a decimal inside the range and i64; bool: true/false; count: 0..255; String: UTF-8).
+# This is the statement of the Coq theorems C04_parser_typed_levels / C04_stored_* / C04_merge_typed.
+def _vp_of(a):
+    v = a.get("vp")
+    if v:
+        return v
+    act = a.get("action", "set")
+    if act in ("settrue", "setfalse"):
+        return "bool"
+    if act == "count":
+        return "count"
+    return "string"
+
+
+def _level_defs(cmd, chain_names):
+    """per level of the reported chain: id -> argument definition (own arguments, then the global arguments of
+    the ancestors that the level does not define itself); stops at a name that is not a subcommand (external)"""
+    out = []
+    inherited = []
+    cur = cmd
+    while True:
+        defs = {a["id"]: a for a in cur["args"]}
+        for g in inherited:
+            defs.setdefault(g["id"], g)
+        out.append(defs)
+        if len(out) > len(chain_names):
+            break
+        nxt = [s for s in cur["subs"] if s["name"] == chain_names[len(out) - 1]]
+        if not nxt:
+            break
+        inherited = [a for a in defs.values() if "global" in a["flags"]]
+        cur = nxt[0]
+    return out
+
+
+def _in_language(vp, raw):
+    if vp == "os":
+        return True
+    if vp == "string":
+        return is_utf8(raw)
+    if vp == "bool":
+        return raw in (b"true", b"false")
+    if vp == "count":
+        return bool(DEC_SIGNED.match(raw)) and 0 <= big_reading(raw) <= 255
+    if isinstance(vp, tuple) and vp[0] == "i64":
+        return (is_utf8(raw) and bool(DEC_SIGNED.match(raw)) and vp[1] <= big_reading(raw) <= vp[2]
+                and I64_MIN <= big_reading(raw) <= I64_MAX)
+    return True
+
+
+def _stored_walk(case, impl):
+    """-> (violation or None, number of values checked against a non-trivial parser, skipped shadowed ids)"""
+    p = parse_result(impl)
+    if p["kind"] != "ok":
+        return None, 0, 0
+    cmd, _argv = parse_streams.decode_case(case)
+    lv = parse_streams.levels(p["m"])
+    names = [n for (_e, n) in lv if n is not None]
+    defs = _level_defs(cmd, names)
+    checked = skipped = 0
+    for k, (ents, _n) in enumerate(lv):
+        if k >= len(defs):
+            break
+        for e in ents:
+            a = defs[k].get(e["id"])
+            if a is None or e["src"] == "?":
+                continue
+            vps = {repr(_vp_of(d[e["id"]])) for d in defs if e["id"] in d}
+            if len(vps) > 1:        # the id is redefined with another parser on the chain: recorded observation
+                skipped += 1
+                continue
+            vp = _vp_of(a)
+            for g in e["occ"]:
+                for raw in g:
+                    if vp not in ("os", "string"):
+                        checked += 1
+                    if not _in_language(vp, raw):
+                        return ("level %d: argument %r (parser %r) reports the value %r, which its value parser does not accept"
+                                % (k, e["id"], vp, raw)), checked, skipped
+    return None, checked, skipped
+
+
+def stored_oracle(case, impl):
+    return _stored_walk(case, impl)[0]
+
+
+def make_stored_nontrivial(d):
+    """non-trivial = a successful parse in which at least one reported value was checked against a parser other
+    than String/OsString; the measured distribution goes into the evidence"""
+    def nt(case, impl):
+        _v, checked, skipped = _stored_walk(case, impl)
+        p = parse_result(impl)
+        key = p["kind"] if p["kind"] != "err" else "err:" + p["ekind"]
+        d["outcome " + key] = d.get("outcome " + key, 0) + 1
+        d["typed values checked (i64/bool/count)"] = d.get("typed values checked (i64/bool/count)", 0) + checked
+        d["entries skipped: id redefined with another parser on the chain"] = \
+            d.get("entries skipped: id redefined with another parser on the chain", 0) + skipped
+        return checked > 0
+    return nt
+
+
+def stored_project(r):
+    p = parse_result(r)
+    if p["kind"] == "err":
+        return "help-or-version" if p["ekind"].split("|")[0] in ("DisplayHelp", "DisplayVersion") else "err"
+    if p["kind"] == "panic":
+        return "panic"
+    return r
+
+
+def _has_typed_arg(c):
+    return any(isinstance(a.get("vp"), tuple) or a.get("action") in ("count", "settrue", "setfalse") for a in c["args"]) \
+        or any(_has_typed_arg(sc) for sc in c["subs"])
+
+
+def gen_stored(tier, rng):
+    n = 4000 if tier == "quick" else 60000
+    # commands with at least one ranged-integer / bool / count argument; mostly-valid lines (so that values are
+    # stored), defaults and env values as generated, some mutation (so that values outside the language occur)
+    return parse_streams.gen_cases(rng, n, None, per_cmd=6, p_mutate=0.25, safe_p=0.8, want=_has_typed_arg)
+
+
 # ----------------------------------------------------------------- streams
 def streams(tier, rng):
+    d_stored = {"measured": "on the implementation's results of this run (filled in while the stream is evaluated)"}
     sts = [
         Stream("int", gen_int(tier, rng), oracle=int_oracle, area="value", nontrivial=int_nontrivial),
         Stream("bool", gen_bool(tier, rng), oracle=bool_oracle, area="value", nontrivial=bool_nontrivial),
         Stream("possible", gen_possible(tier, rng), oracle=possible_oracle, area="value", nontrivial=possible_nontrivial),
         Stream("enum", gen_enum(tier, rng), oracle=enum_oracle, area="value"),
         Stream("store", gen_store(tier, rng), oracle=store_oracle, area="value", nontrivial=store_nontrivial),
+        Stream("stored", gen_stored(tier, rng), oracle=stored_oracle, area="parse", project=stored_project,
+               nontrivial=make_stored_nontrivial(d_stored), describe=d_stored),
     ]
     if tier == "thorough":
         # builds without debug assertions: range() does not assert, verify_arg does not check
@@ -691,8 +834,11 @@ def classify_known(stream, case, impl, failure):
 
 
 TECHNIQUE = ("Coq proof (language equality of the ranged-integer, boolean-literal and possible-value parser models with "
-             "declarative specifications; refinement of the typed store to a finite map) + regenerated literal/factory "
-             "tables + extracted-model/implementation correspondence")
+             "declarative specifications; refinement of the typed store to a finite map; round 2: a state invariant of the "
+             "parser model -- every value stored for an argument was accepted by that argument's value parser -- proved by "
+             "one traversal of the token loop, the env/default phases, the subcommand recursion and the globals merge, and "
+             "bridged to the value-parser models) + regenerated literal/factory tables + extracted-model/implementation "
+             "correspondence (value parsers directly and through the full parser)")
 LEVEL_TEXT = ("Machine-checked theorems (Coq 8.16, closed under the global context): the transcription of "
               "Ranged{I64,U64}ValueParser::parse_ref over a digit-by-digit model of str::parse accepts exactly the strings "
               "[+-]?[0-9]+ (resp. +?[0-9]+) whose unbounded integer reading lies in the declared range, the carrier and the "
@@ -702,11 +848,28 @@ LEVEL_TEXT = ("Machine-checked theorems (Coq 8.16, closed under the global conte
               "ones); possible-value and enum parsers accept exactly the declared names and aliases, caselessly iff "
               "ignore_case; every rejection is InvalidUtf8/ValueValidation/InvalidValue; every history of typed "
               "get/remove calls refines a finite map in which failing accesses change nothing and a successful remove "
-              "deletes exactly that id.  The models are tied to clap_builder by running the extracted model and the real "
-              "crate (direct parse_ref and full Command path) on the same generated cases on every check, with an "
-              "independent python oracle on the implementation's output.")
+              "deletes exactly that id.  Round 2 (whole parser): for EVERY command passing the validity gate and every "
+              "token list, the matcher get_matches_with hands back -- on success and on error -- is typed at every level of "
+              "the subcommand chain: each value stored for an argument (command line, env, default, conditional default, "
+              "default-missing, action literal) was accepted by that argument's value parser, and the typed value stored "
+              "next to it is the C04 model's parse of it (same shape, same place); hence for a ranged-integer argument every "
+              "reported value is a decimal inside the range and the target type whose integer reading is the typed value, "
+              "for bool exactly true/false, for String well-formed UTF-8; the property survives the globals merge whenever the "
+              "definitions agree on the parser of each global id (refutation witness otherwise); a rendered invocation "
+              "(C02's un-parser class) carrying a value outside the language is never accepted, and every value-error of "
+              "parse_top is the refusal of an argument's parser of a value of the line or the definition, naming the "
+              "argument; the ArgMatches of every successful level of a parse satisfies the typed-store invariant, so wrong-type and "
+              "unknown-id accesses on a parse result fail and leave every stored entry untouched.  The models are tied to "
+              "clap_builder by running the extracted model and the real crate (direct parse_ref, full Command path, and the "
+              "full parser on random command trees with typed arguments) on the same generated cases on every check, with "
+              "an independent python oracle on the implementation's output.")
 LEVEL_NOTE = ("Trusted: Coq kernel, extraction, OCaml driver, Rust harness, generators, translators/tables.py; std's "
               "str::parse/from_utf8/try_from/to_lowercase and unicase::eq are modelled (spec-level), not verified.  "
               "Recorded: InvalidUtf8 rejections do not name the argument (known finding C04-invalid-utf8-unnamed, theorem "
               "C04_reject_names_arg_refuted); a failed try_remove_* moves the id to the end of ids() "
-              "(C04_store_order_refuted, observation).")
+              "(C04_store_order_refuted, observation); the globals merge copies entries by id alone, so a subcommand that "
+              "redefines the id of an ancestor's global argument with another value parser makes the ancestor report a value "
+              "its own parser refuses (C04_merged_typed_refuted, model = implementation, observation).  Differential only: "
+              "whole-parse statements for boolish/falsey/non-empty/possible/enum parsers and integer widths other than "
+              "i64/u8 (not expressible in the parser model's definitions), the typed store of the merged result and of levels "
+              "that failed under ignore_errors, rejection completeness outside the un-parser class, unicase outside ASCII.")
